@@ -86,7 +86,7 @@ def typed_anytype_faults(ctx):
     from xsdata.formats.dataclass.parsers.config import ParserConfig
 
     from .. import handler_bind as hb
-    from ..poly_models import AnyHolder, WildOther
+    from ..poly_models import AnyHolder, AnyNil, WildOther
 
     xs = 'xmlns:xs="http://www.w3.org/2001/XMLSchema" xmlns:xsi="http://www.w3.org/2001/XMLSchema-instance"'
     types = ["hexBinary", "base64Binary", "int", "boolean", "decimal", "float", "double", "date", "dateTime", "time", "duration", "gYear", "gMonthDay",
@@ -98,7 +98,8 @@ def typed_anytype_faults(ctx):
         for bad in bads:
             for nil in ("", ' xsi:nil="true"'):
                 docs = [(f'<AnyHolder {xs}><v xsi:type="xs:{tp}"{nil}>{bad}</v><w xsi:type="xs:{tp}">{bad}</w></AnyHolder>', AnyHolder),
-                        (f'<w:WildOther xmlns:w="urn:wild" xmlns:e="urn:ext" {xs}><e:ext xsi:type="xs:{tp}"{nil}>{bad}</e:ext></w:WildOther>', WildOther)]
+                        (f'<w:WildOther xmlns:w="urn:wild" xmlns:e="urn:ext" {xs}><e:ext xsi:type="xs:{tp}"{nil}>{bad}</e:ext></w:WildOther>', WildOther),
+                        (f'<AnyNil {xs}><v xsi:type="xs:{tp}"{nil}>{bad}</v><w xsi:type="xs:{tp}"{nil}>{bad}</w><e:x xmlns:e="urn:ext" xsi:type="xs:{tp}"{nil}>{bad}</e:x></AnyNil>', AnyNil)]
                 for text, clazz in docs:
                     for h in ("native", "lxml"):
                         for strict in (False, True):
